@@ -6,8 +6,9 @@ can loop forever on malformed input), and small unit wrappers around the x690 pr
 import signal
 
 
-class Hang(Exception):
-    pass
+class Hang(BaseException):
+    """raised by the timer; a BaseException so that `except Exception` in the code under test
+    (or in the harness) cannot swallow it"""
 
 
 def _alarm(signum, frame):
@@ -17,7 +18,7 @@ def _alarm(signum, frame):
 def guarded(fn, seconds=0.3):
     """run fn() with a wall-clock guard; returns ("ok", value) | ("error", excname) | ("hang",)"""
     old = signal.signal(signal.SIGALRM, _alarm)
-    signal.setitimer(signal.ITIMER_REAL, seconds)
+    signal.setitimer(signal.ITIMER_REAL, seconds, 0.1)  # keeps firing until the call gives up
     try:
         try:
             return ("ok", fn())
@@ -117,3 +118,24 @@ def model_outcome(ans):
 def wellformed_varbind_shapes(tree):
     """PDU content readable by PDU.decode_raw: each binding a 2-item sequence starting with an OID"""
     return True
+
+
+def loop_predicted(datagrams):
+    """for each datagram: does the Lean x690 mirror predict a never-ending decode loop — in the
+    message itself or in the USM security-parameter block nested in its third field?"""
+    from harness.common import run_driver
+
+    datagrams = list(dict.fromkeys(datagrams))
+    first = run_driver([{"op": "ber.tree", "data": dg.hex(), "fuel": 2000, "depth": 12} for dg in datagrams])
+    out, nested = {}, []
+    for dg, a in zip(datagrams, first):
+        t = a.get("ok")
+        out[dg] = t == ["error", "outOfFuel"]
+        if isinstance(t, list) and t[:1] == ["seq"] and len(t[2]) >= 3 and t[2][2][0] == "str" and t[2][2][2]:
+            nested.append((dg, t[2][2][2]))
+    if nested:
+        second = run_driver([{"op": "ber.tree", "data": h, "fuel": 2000, "depth": 12} for _dg, h in nested])
+        for (dg, _h), a in zip(nested, second):
+            if a.get("ok") == ["error", "outOfFuel"]:
+                out[dg] = True
+    return out
